@@ -47,10 +47,14 @@ class VClockDt(real_dt):
     _n = 0
     _base = real_dt(2024, 1, 1, 12, 0, 0)
 
+    coarse = False      # a wall clock of 1/64 s resolution (time.time() of CPython <= 3.12 on Windows): stamps tie
+
     @classmethod
     def now(cls, tz=None):
         cls._n += 1
         t = cls._loop.time() if cls._loop else 0.0
+        if cls.coarse:
+            return cls._base + td(microseconds=int(t * 64) * 15625)
         return cls._base + td(seconds=t, microseconds=cls._n)
 
 
@@ -95,10 +99,11 @@ class Episode:
         self.tx: dict = {}          # (pool idx, n-th transmission) -> {echo, reply, dup, fail}
         self.events: list = []      # (t, kind, arg)
         self.probe = True
+        self.coarse_clock = False   # datetime.now() with 1/64 s resolution: queue entries' time stamps tie
 
     def to_json(self) -> dict:
         return {"mode": self.mode, "calls": self.calls, "tx": {f"{k[0]}:{k[1]}": v for k, v in self.tx.items()},
-                "events": self.events}
+                "events": self.events, "coarse_clock": self.coarse_clock}
 
     @staticmethod
     def from_json(d: dict) -> "Episode":
@@ -107,6 +112,7 @@ class Episode:
         e.calls = d["calls"]
         e.tx = {tuple(int(x) for x in k.split(":")): v for k, v in d["tx"].items()}
         e.events = [tuple(x) for x in d["events"]]
+        e.coarse_clock = bool(d.get("coarse_clock", False))
         return e
 
 
@@ -138,6 +144,7 @@ def gen_episode(rnd: random.Random, fine: bool = True) -> Episode:
             kind = rnd.choice(("foreign", "foreign", "conn_lost", "conn_lost_made", "pause", "pause_resume"))
             tt = rnd.choice((rnd.uniform(0, 8), rnd.choice(deadlines) + rnd.choice((0, -1e-9, 1e-9)), rnd.choice([c["t"] for c in e.calls]) + rnd.choice((0.0, 1e-9, 0.02))))
             e.events.append((tt, kind, rnd.randrange(len(FOREIGN))))
+        e.coarse_clock = rnd.random() < 0.25
     return e
 
 
@@ -197,6 +204,7 @@ def run_episode(ep: Episode) -> Result:
     async def main(loop: vloop.VLoop) -> None:
         VClockDt._loop = loop
         VClockDt._n = 0
+        VClockDt.coarse = ep.coarse_clock
         F.dt = VClockDt
         protocol = protocol_factory(lambda m: None, disable_qos=ep.mode)
         tx_count: dict = {}
